@@ -221,7 +221,7 @@ def unit_gauss():
 def units(tier):
     us = [("unit_gauss", ())]
     for m in extract.MODELS:
-        shapes = [(1, 1), (2, 1), (16, 1), (2, 1, 3), (1, 1, 1, 1)] if tier == "quick" else \
+        shapes = [(1, 1), (2, 1), (16, 1), (16, 16), (2, 1, 3), (1, 1, 1, 1)] if tier == "quick" else \
             [(1, 1), (2, 1), (16, 1), (16, 16), (2, 1, 3), (1, 1, 1, 1), (2, 16, 1, 3), (1,) * 6, (1,) * 8, (16, 1, 2, 1, 1, 3, 1, 16)]
         for s in shapes:
             us.append(("unit_compute", (m, s, "default")))
